@@ -250,3 +250,12 @@ CHECKS["C01"].update(
                                         "Element-level and whole-data-set round trips (nested sequences, encapsulated pixel data, deflate) are covered only by the native units C01.elements / C01.objects (bounded stand-ins, never counted as proved), which exposed defects S16 and S17; non-default character sets are uncovered."))
 CHECKS["C04"].update(
     note=CHECKS["C04"]["note"].replace("the token-level writer and file writing are uncovered.", "the token-level writer (delimiters, defined lengths) is covered only by the native unit C04.streams (independent structural reader over a few objects); file writing is uncovered."))
+CHECKS["C14"].update(
+    technique=CHECKS["C14"]["technique"] + "; native enumeration of printed tags, selectors and keywords in selectors (stand-in)",
+    note=CHECKS["C14"]["note"] + " Printing (Display) and the attribute selector syntax are covered only by the native unit C14.text (bounded, never counted as proved).")
+CHECKS["C27"].update(
+    technique=CHECKS["C27"]["technique"] + "; native runs of the segmentations of a fixed stream and of the buffer hand-over after the handshake (stand-ins)")
+CHECKS["C07"].update(
+    note=CHECKS["C07"]["note"].replace("and the native unit C07.dataset (bounded).", "and the native unit C07.dataset (bounded: eager and lazy readers, items and pixel data fragments with odd lengths)."))
+CHECKS["C08"].update(
+    technique=CHECKS["C08"]["technique"] + "; native comparison of header streams with the real dictionary (stand-in)")
